@@ -19,6 +19,17 @@ type Meta struct {
 	View map[string]*Node
 	Out  *verifutil.Out
 	Ctx  string // build options, for messages
+	// RootSig, when set, is the signature under which every difference found at the root directory
+	// itself is reported (labelled stream of a candidate finding about the root's attributes).
+	RootSig string
+}
+
+// sig picks the failure signature for path p.
+func (s *Meta) sig(p, sig string) string {
+	if p == "" && s.RootSig != "" {
+		return s.RootSig
+	}
+	return sig
 }
 
 func Hex(s string) string {
@@ -99,27 +110,27 @@ func (s *Meta) Stat(p string, modelled bool) {
 	// ---- oracle ----
 	if !exists {
 		if errno != syscall.ENOENT {
-			out.Fail("lookup-of-missing-name-succeeded", fmt.Sprintf("%q is not in the tar but lookup gave errno=%v", p, errno))
+			out.Fail(s.sig(p, "lookup-of-missing-name-succeeded"), fmt.Sprintf("%q is not in the tar but lookup gave errno=%v", p, errno))
 		}
 		return
 	}
 	if errno != 0 {
-		out.Fail("lookup-failed", fmt.Sprintf("%q is in the tar but lookup/getattr gave %v [%s]", p, errno, s.Ctx))
+		out.Fail(s.sig(p, "lookup-failed"), fmt.Sprintf("%q is in the tar but lookup/getattr gave %v [%s]", p, errno, s.Ctx))
 		return
 	}
 	if d := CheckAttr(a, n); len(d) > 0 {
-		out.Fail("attr-differs-"+strings.SplitN(d[0], ":", 2)[0], fmt.Sprintf("getattr %q (entry %q): %s", p, n.Path, strings.Join(d, "; ")))
+		out.Fail(s.sig(p, "attr-differs-"+strings.SplitN(d[0], ":", 2)[0]), fmt.Sprintf("getattr %q (entry %q): %s", p, n.Path, strings.Join(d, "; ")))
 	}
 	if p != "" {
 		if d := CheckAttr(la, n); len(d) > 0 {
-			out.Fail("lookup-attr-differs-"+strings.SplitN(d[0], ":", 2)[0], fmt.Sprintf("lookup %q (entry %q): %s", p, n.Path, strings.Join(d, "; ")))
+			out.Fail(s.sig(p, "lookup-attr-differs-"+strings.SplitN(d[0], ":", 2)[0]), fmt.Sprintf("lookup %q (entry %q): %s", p, n.Path, strings.Join(d, "; ")))
 		}
 		if la.Ino != a.Ino {
-			out.Fail("ino-differs-lookup-getattr", fmt.Sprintf("%q: lookup ino %d getattr ino %d", p, la.Ino, a.Ino))
+			out.Fail(s.sig(p, "ino-differs-lookup-getattr"), fmt.Sprintf("%q: lookup ino %d getattr ino %d", p, la.Ino, a.Ino))
 		}
 	}
 	if n.Type == tar.TypeSymlink && link != n.Link {
-		out.Fail("readlink-differs", fmt.Sprintf("%q: %q want %q", p, link, n.Link))
+		out.Fail(s.sig(p, "readlink-differs"), fmt.Sprintf("%q: %q want %q", p, link, n.Link))
 	}
 }
 
@@ -208,18 +219,18 @@ func (s *Meta) Xattr(p, name string, modelled bool) {
 	want, has := n.Xattrs[name]
 	if has {
 		if errno != 0 || string(v) != want {
-			out.Fail("xattr-differs", fmt.Sprintf("getxattr %q %q: %q errno=%v want %q", p, name, v, errno, want))
+			out.Fail(s.sig(p, "xattr-differs"), fmt.Sprintf("getxattr %q %q: %q errno=%v want %q", p, name, v, errno, want))
 		}
 		// a too small buffer reports the size with ERANGE
 		if len(want) > 0 {
 			_, sz2, e2 := s.T.Getxattr(p, name, len(want)-1)
 			if e2 != syscall.ERANGE || int(sz2) != len(want) {
-				out.Fail("xattr-erange", fmt.Sprintf("getxattr %q %q with a short buffer: size=%d errno=%v", p, name, sz2, e2))
+				out.Fail(s.sig(p, "xattr-erange"), fmt.Sprintf("getxattr %q %q with a short buffer: size=%d errno=%v", p, name, sz2, e2))
 			}
 		}
 		_ = sz
 	} else if errno != syscall.ENODATA {
-		out.Fail("xattr-unexpected", fmt.Sprintf("getxattr %q %q: errno=%v value %q, the tar has none", p, name, errno, v))
+		out.Fail(s.sig(p, "xattr-unexpected"), fmt.Sprintf("getxattr %q %q: errno=%v value %q, the tar has none", p, name, errno, v))
 	}
 	lst, errno := s.T.Listxattr(p)
 	var wl []string
@@ -228,6 +239,6 @@ func (s *Meta) Xattr(p, name string, modelled bool) {
 	}
 	sort.Strings(wl)
 	if errno != 0 || strings.Join(lst, "\x00") != strings.Join(wl, "\x00") {
-		out.Fail("listxattr-differs", fmt.Sprintf("listxattr %q: %q errno=%v want %q", p, lst, errno, wl))
+		out.Fail(s.sig(p, "listxattr-differs"), fmt.Sprintf("listxattr %q: %q errno=%v want %q", p, lst, errno, wl))
 	}
 }
